@@ -6,7 +6,7 @@ import ast
 from fractions import Fraction
 
 from . import terms as T
-from .model import AnalysisError, Func, Cls, NONE_RETURNING
+from .model import AnalysisError, Func, Cls, NONE_RETURNING, MUTATORS
 
 BUILTINS = {"len", "range", "abs", "round", "int", "float", "list", "set", "tuple", "dict", "enumerate", "zip",
             "sum", "max", "min", "map", "filter", "reversed", "sorted", "type", "isinstance", "str", "print",
@@ -254,8 +254,19 @@ class Eval:
         elif isinstance(target, ast.Subscript):
             base = self.ev(target.value)
             key = self.ev_index(target.slice)
-            self.emit("store", st, target=T.idx(base, key), base=base, attr=self._attr_name(target.value),
-                      key=key, value=v, sub=True, aug=aug)
+            # an element store of a choice is the choice between two element stores (`r[i] = a if c else b`  ==  if c: r[i] = a  else: r[i] = b)
+            def store_split(val):
+                if val[0] == "phi" and not aug:
+                    for cond, branch in ((val[1], val[2]), (T.b_not(val[1]), val[3])):
+                        self.guard.append(cond)
+                        try:
+                            store_split(branch)
+                        finally:
+                            self.guard.pop()
+                else:
+                    self.emit("store", st, target=T.idx(base, key), base=base, attr=self._attr_name(target.value),
+                              key=key, value=val, sub=True, aug=aug)
+            store_split(v)
             upd = ("upd", base, key, v)
             if isinstance(target.value, ast.Name):
                 self.env[target.value.id] = upd
@@ -367,7 +378,10 @@ class Eval:
             self.env[n] = ("lc", n, L)
             self.summary.loop_init[(n, L)] = init[n]
         self.bind_target(st.target, bv)
+        n0, r0 = len(self.summary.events), len(self.summary.returns)
+        li0 = set(self.summary.loop_init)
         self.gblock(("loop", L, it), st.body)
+        it = self.canon_body(L, it, n0, r0, li0)
         # summarise loop-carried values
         for n in carried:
             new = self.env.get(n)
@@ -379,6 +393,72 @@ class Eval:
         if st.orelse:
             self.block(st.orelse)
         return None
+
+    def canon_body(self, L, it, n0, r0, li0, extra=None):
+        """rewrite everything the body of loop L produced into the canonical spelling of its iteration idiom"""
+        bv = ("bv", L)
+        evs = self.summary.events[n0:]
+        terms = []
+        for e in evs:
+            for k in TERM_FIELDS:
+                v = e.__dict__.get(k)
+                if isinstance(v, tuple):
+                    terms.append(v)
+            terms.extend(e.__dict__.get("args", ()))
+            terms.extend(v for _, v in e.__dict__.get("kw", ()))
+            for g in e.guard:
+                if g[0] in ("loop", "while"):
+                    if g[1] != L:
+                        terms.append(g[2])
+                elif g[0] not in ("except", "try"):
+                    terms.append(g)
+        terms.extend(v for v in self.env.values() if isinstance(v, tuple))
+        terms.extend(v for v in self.heap.values() if isinstance(v, tuple))
+        terms.extend(k for k in self.heap if isinstance(k, tuple))
+        for g, t, _ in self.summary.returns[r0:]:
+            terms.append(t)
+            terms.extend(x for x in g if x[0] not in ("loop", "while", "except", "try"))
+        terms.extend(v for k, v in self.summary.loop_init.items() if k not in li0 and isinstance(v, tuple))
+        terms.extend(extra or ())
+        mutated = []
+        for e in evs:
+            if e.kind == "call" and isinstance(e.fname, tuple) and e.fname[0] == "m" and e.fname[1] in MUTATORS and isinstance(e.recv, tuple):
+                mutated.append(e.recv)
+            elif e.kind == "store" and isinstance(e.base, tuple):
+                mutated.append(e.base)
+            elif e.kind == "del" and isinstance(e.base, tuple):
+                mutated.append(e.base)
+        for m in list(mutated):
+            for x in T.subterms(m):
+                if x[0] == "lc" and isinstance(self.summary.loop_init.get((x[1], x[2])), tuple):
+                    mutated.append(self.summary.loop_init[(x[1], x[2])])
+        it2, mappings, conds = canon_loop(bv, it, terms, mutated)
+        if not mappings and it2 == it and not conds:
+            return it
+
+        def f(t):
+            return apply_mappings(t, mappings)
+
+        def fg(guard):
+            out = []
+            for g in rewrite_guard(guard, f):
+                if g[0] == "loop" and g[1] == L:
+                    out.append(("loop", L, it2))
+                    out.extend(conds)
+                else:
+                    out.append(g)
+            return tuple(out)
+        for e in evs:
+            g_old = e.guard
+            rewrite_event(e, f)
+            e.guard = fg(g_old)
+        self.env = {k: (f(v) if isinstance(v, tuple) else v) for k, v in self.env.items()}
+        self.heap = {(f(k) if isinstance(k, tuple) else k): (f(v) if isinstance(v, tuple) else v) for k, v in self.heap.items()}
+        self.summary.returns[r0:] = [(fg(g), f(t), n) for g, t, n in self.summary.returns[r0:]]
+        for k in list(self.summary.loop_init):
+            if k not in li0 and isinstance(self.summary.loop_init[k], tuple):
+                self.summary.loop_init[k] = f(self.summary.loop_init[k])
+        return it2
 
     def loop_summary(self, name, L, it, init, new):
         lc = ("lc", name, L)
@@ -743,6 +823,7 @@ class Eval:
 
     def comp(self, n, kind):
         saved = dict(self.env)
+        n0 = len(self.summary.events)
         gens = []
         for g in n.generators:
             it = self.ev(g.iter)
@@ -767,6 +848,25 @@ class Eval:
                     changed[name] = ("loopres", name, gens[0][0][1], old, v)
         self.env = saved
         self.env.update(changed)
+        # canonical iteration idioms, outermost generator first
+        for i in range(len(gens)):
+            bv, it, cond = gens[i]
+            terms = [elt, cond] + [x for g in gens[i + 1:] for x in (g[1], g[2])] + [v for v in changed.values()]
+            for e in self.summary.events[n0:]:
+                terms.extend(e.__dict__.get("args", ()))
+                if isinstance(e.__dict__.get("recv"), tuple):
+                    terms.append(e.recv)
+            it2, mappings, conds = canon_loop(bv, it, terms)
+            if mappings or it2 != it or conds:
+                f = (lambda t, m=mappings: apply_mappings(t, m))
+                elt = f(elt)
+                gens[i] = (bv, it2, T.b_and(*(conds + [f(cond)])))
+                for j in range(i + 1, len(gens)):
+                    gens[j] = (gens[j][0], f(gens[j][1]), f(gens[j][2]))
+                for name in changed:
+                    self.env[name] = changed[name] = f(changed[name])
+                for e in self.summary.events[n0:]:
+                    rewrite_event(e, f)
         out = None
         for bv, it, cond in reversed(gens):
             if out is None:
@@ -901,7 +1001,7 @@ class Eval:
                     return ("call", ("m", "pop"), (recv,) + tuple(args), ())
                 return T.NONE
         # --- inlining of small helpers
-        if isinstance(target, Func) and target.qualname in self.inline and self.depth < self.MAX_DEPTH:
+        if isinstance(target, Func) and self.depth < self.MAX_DEPTH and (target.qualname in self.inline or auto_inline(target)):
             return self.inline_call(n, target, recv, args, kw)
         if isinstance(target, Cls):
             return ("call", "new:" + target.qualname, tuple(args), tuple(sorted(kw)))
@@ -955,9 +1055,186 @@ class Eval:
         return out if out is not None else T.NONE
 
 
+# private helpers are implementation detail of their callers: a statement extracted into `_helper(...)` must analyse
+# like the statement left in place, so calls to them are always expanded (bounded by MAX_DEPTH).  The two entries
+# below are the repository's own private methods that the obligations name as units; they stay call atoms.
+NO_AUTO_INLINE = {"_build_matrix"}
+
+
+def auto_inline(target):
+    n = target.name
+    return n.startswith("_") and not n.startswith("__") and n not in NO_AUTO_INLINE and target is not None
+
+
 # ---------------------------------------------------------------------- term builders
+TERM_FIELDS = ("value", "old", "key", "base", "target", "recv", "term", "test", "exc")
+
+
+def rewrite_event(e, f):
+    """apply the term rewriting f to every term an event carries (guards included)"""
+    for k in TERM_FIELDS:
+        v = e.__dict__.get(k)
+        if isinstance(v, tuple):
+            e.__dict__[k] = f(v)
+    if "args" in e.__dict__:
+        e.args = tuple(f(a) for a in e.args)
+    if "kw" in e.__dict__:
+        e.kw = tuple((k, f(v)) for k, v in e.kw)
+    if isinstance(e.__dict__.get("fname"), tuple) and e.fname[0] == "dyn":
+        e.fname = ("dyn", f(e.fname[1]))
+    e.guard = rewrite_guard(e.guard, f)
+
+
+def rewrite_guard(guard, f):
+    out = []
+    for g in guard:
+        if g[0] in ("loop", "while"):
+            out.append((g[0], g[1], f(g[2])))
+        elif g[0] in ("except", "try"):
+            out.append(g)
+        else:
+            out.append(f(g))
+    return tuple(out)
+
+
+def canon_loop(bv, it, terms, mutated=()):
+    """One canonical spelling per iteration idiom, decided from what the body actually uses (terms = every term the body
+    produced).  -> (iterator, mappings, conds): the mappings are applied in order (T.substitute, each one simultaneous) to
+    all body terms; conds are conditions every iteration of the body is additionally guarded by (filters of a fused
+    comprehension).
+        for y in [g(x) for x in Z if p(x)]               ->  for x in Z if p(x), y = g(x)
+        enumerate([g(x) for x in Z]), zip of images of Z ->  the same over Z
+        enumerate(X), index unused                       ->  X,            element = bv
+        range(len(X)) with X[i]                          ->  enumerate(X), i = bv[0], X[i] = bv[1]   (X if only X[i] is used)
+        enumerate(X), element unused                     ->  range(len(X))
+        D.items(), key unused / value unused              ->  D.values() / D
+        D or D.keys() with D[k]                          ->  D.items(), k = bv[0], D[k] = bv[1]       (D.values() if only D[k] is used)
+        M[i] with M = [f(x) for x in X] while enumerating X  ->  f(element)
+    """
+    terms = list(terms)
+    mappings, conds = [], []
+    for _ in range(8):
+        it2, mapping, cond = _canon_step(bv, it, terms)
+        if it2 != it and mutated and (it[0] == "map" or (it[0] == "call" and it[1] in ("enumerate", "zip") and any(a[0] == "map" for a in it[2]))) \
+                and any(T.contains(it, m) or T.contains(m, it) for m in mutated):
+            # the loop runs over a snapshot (a materialised comprehension) of something its body changes: not the same as
+            # running over the source itself, so the comprehension is left in place
+            break
+        if not mapping and it2 == it and cond is None:
+            break
+        if mapping:
+            mappings.append(mapping)
+            terms = [T.substitute(t, mapping) for t in terms]
+        if cond is not None:
+            conds.append(cond)
+            terms.append(cond)
+        it = it2
+    return it, mappings, conds
+
+
+def apply_mappings(t, mappings):
+    for m in mappings:
+        t = T.substitute(t, m)
+    return t
+
+
+def _canon_step(bv, it, terms):
+    P0, P1 = T.idx(bv, T.num(0)), T.idx(bv, T.num(1))
+
+    def used(x, mapping=None):
+        for t in terms:
+            t2 = T.substitute(t, mapping) if mapping else t
+            if T.contains(t2, x):
+                return True
+        return False
+
+    def is_call(t, name, n=1):
+        return t[0] == "call" and t[1] == name and len(t[2]) == n
+
+    def image(m):
+        """m as an element-wise image of a root sequence: (root, element as a function of ('sym','$z')) - None for filtered maps"""
+        if m[0] == "map":
+            if m[4] != T.TRUE:
+                return None
+            return m[3], T.substitute(m[1], {m[2]: ("sym", "$z")})
+        return m, ("sym", "$z")
+
+    Z = ("sym", "$z")
+    if is_call(it, ("m", "keys")):
+        return it[2][0], {}, None
+    if is_call(it, "range", 2) and it[2][0] == T.num(0):
+        return ("call", "range", (it[2][1],), ()), {}, None
+    # ---- iterating a comprehension is iterating its source
+    if it[0] == "map":
+        e2, b2, it2, c2 = it[1:]
+        m = {bv: T.substitute(e2, {b2: bv})}
+        c = T.substitute(c2, {b2: bv})
+        return it2, m, (c if c != T.TRUE else None)
+    if is_call(it, "enumerate") and it[2][0][0] == "map" and it[2][0][4] == T.TRUE:
+        e2, b2, it2, _ = it[2][0][1:]
+        return ("call", "enumerate", (it2,), ()), {P1: T.substitute(e2, {b2: P1})}, None
+    if is_call(it, "zip", 2):
+        ia, ib = image(it[2][0]), image(it[2][1])
+        if ia is not None and ib is not None and ia[0] == ib[0] and (ia[1] != Z or ib[1] != Z or True) and \
+                (it[2][0][0] == "map" or it[2][1][0] == "map" or it[2][0] == it[2][1]):
+            return ia[0], {P0: T.substitute(ia[1], {Z: bv}), P1: T.substitute(ib[1], {Z: bv})}, None
+        return it, {}, None
+    # ---- positions: enumerate(X) and range(len(X))
+    X = None
+    if is_call(it, "enumerate"):
+        X, pos, elem = it[2][0], P0, P1
+    elif is_call(it, "range") and is_call(it[2][0], "len"):
+        X, pos, elem = it[2][0][2][0], bv, T.idx(it[2][0][2][0], bv)
+    if X is not None:
+        # images of X indexed by the position are images of the element
+        folds = {}
+        for t in terms:
+            for x in T.subterms(t):
+                if x[0] == "idx" and x[2] == pos and x[1][0] == "map" and x[1][3] == X and x[1][4] == T.TRUE:
+                    folds[x] = T.substitute(x[1][1], {x[1][2]: elem})
+                elif x[0] == "idx" and x[2] == pos and x[1] == X and x != elem:
+                    folds[x] = elem
+        TMP = ("sym", "$elem")
+        probe = {k: T.substitute(v, {elem: TMP}) for k, v in folds.items()}
+        probe[elem] = TMP
+        if not used(pos, probe):
+            # the position is never needed: plain iteration over X
+            mapping = {k: T.substitute(T.substitute(v, {elem: TMP}), {TMP: bv}) for k, v in folds.items()}
+            mapping[elem] = bv
+            return X, mapping, None
+        if not folds and not used(elem):
+            # only the position is needed: range(len(X))
+            return ("call", "range", (("call", "len", (X,), ()),), ()), ({pos: bv} if pos != bv else {}), None
+        mapping = {k: T.substitute(T.substitute(v, {elem: TMP}), {TMP: P1}) for k, v in folds.items()}
+        if pos != P0:
+            mapping[elem] = P1
+            mapping[pos] = P0
+        return ("call", "enumerate", (X,), ()), mapping, None
+    # ---- mappings: items(), and keys with look-ups
+    if is_call(it, ("m", "items")):
+        D = it[2][0]
+        if not used(P0):
+            return ("call", ("m", "values"), (D,), ()), {P1: bv}, None
+        if not used(P1):
+            return D, {P0: bv}, None
+        return it, {}, None
+    D = it
+    look = T.idx(D, bv)
+    if D[0] not in ("seq", "arr", "map", "concat") and not is_call(D, ("m", "values")) and used(look):
+        TMP = ("sym", "$elem")
+        if not used(bv, {look: TMP}):
+            return ("call", ("m", "values"), (D,), ()), {look: bv}, None
+        return ("call", ("m", "items"), (D,), ()), {look: P1, bv: P0}, None
+    return it, {}, None
+
+
 def mk_map(elt, bv, it, cond=T.TRUE):
     """[elt for bv in it if cond], with iterator idioms normalised"""
+    # a comprehension over a comprehension is one comprehension: [f(y) for y in [g(x) for x in xs if p(x)] if q(y)]
+    it_c, mappings, conds = canon_loop(bv, it, [elt, cond])
+    if mappings or it_c != it or conds:
+        elt, cond = apply_mappings(elt, mappings), T.b_and(*(conds + [apply_mappings(cond, mappings)]))
+        it = it_c
     # for i, e in enumerate(xs) where the index is unused  ==  for e in xs
     if it[0] == "call" and it[1] == "enumerate" and len(it[2]) == 1:
         i0 = T.idx(bv, T.num(0))
